@@ -76,8 +76,8 @@ def run(ctx):
         for which in ('sreg_start', 'slog_start'):
             s = api_summary(ctx, sn, which)
             for p in s.ok_paths:
-                ev = fields(fields(p.payload).get('message')).get('evaluation_element')
-                if check_eval(rep, 'R09.1', which, ev, sn, where_of(s), Nok):
+                ev = msg_eval(fields(p.payload).get('message'))
+                if check_eval(rep, 'R09.1', which, ev, sn, where_of(s), Nok, role_term(ctx, sn, s, 2 if which == 'sreg_start' else 4, Sym('request'), 'blinded')):
                     rows += 1
                     labels_seen.update([b'OprfKey', b'OPAQUE-DeriveKeyPair'])
         # ---- registration finish
@@ -87,7 +87,7 @@ def run(ctx):
             a = an.client_finish(p)
             res = fields(p.payload)
             up = fields(res.get('message'))
-            env = fields(up.get('envelope'))
+            env = fields(msg_envelope(res.get('message')))
             if 'o' not in a or not a['ksf_calls']:
                 rep.ob('R09.2', 'registration: OPRF finalize and KSF located', False, '', w, sn)
                 continue
@@ -105,7 +105,8 @@ def run(ctx):
             got_pk = norm_keys(fields(cpk[0]).get('0')) if cpk else None
             row('R09.5', 'registration: client public key = PK(DeriveDiffieHellmanKeyPair(Expand(randomized_pwd, nonce || "PrivateKey", Nsk)))', got_pk, want_pk, w, sn)
             ids = ('fld', Sym('params'), 'identifiers')
-            spk = an.ser_pk(('fld', ('fld', Sym('response'), 'server_s_pk'), '0'))
+            rpk = role_term(ctx, sn, s, 4, Sym('response'), 'pubkeys')
+            spk = an.ser_pk(('fld', rpk, '0'))
             id_u = an.ident_choice(p, ('fld', ids, 'client'), an.ser_pk(fields(cpk[0]).get('0')) if cpk else None)
             id_s = an.ident_choice(p, ('fld', ids, 'server'), spk)
             tag = rfc.auth_tag(ks['auth_key'], nonce, rfc.cleartext_credentials(spk, id_s, id_u), Nh) if None not in (id_u, id_s, nonce) else None
@@ -177,7 +178,8 @@ def run(ctx):
             ikm = ex[0][2][1] if ex else None
             eph = [d for d in dhs if find_apps(d[1], 'KeGroup::derive_auth_keypair')]
             stat = [d for d in dhs if d not in eph]
-            req_pk = ('fld', ('fld', ('fld', Sym('request'), 'ke1_message'), 'client_e_pk'), '0')
+            rq = role_term(ctx, sn, s, 4, Sym('request'), 'pubkeys')
+            req_pk = ('fld', rq, '0') if rq is not None else None
             roles_ok = len(dhs) == 3 and len(stat) == 1 and stat[0][0] == req_pk and sum(1 for d in eph if d[0] == req_pk) == 1
             if roles_ok:
                 e1 = [d for d in eph if d[0] == req_pk][0]
@@ -218,8 +220,6 @@ def run(ctx):
             ikm = ex[0][2][1] if ex else None
             dec = a['decode_pk'][0][1]
             pkstar = an.okval(App('KeGroup::deserialize_pk', dec))
-            esk = ('fld', ('fld', ('fld', Sym('self'), 'ke1_state'), 'client_e_sk'), '0')
-            epk = ('fld', ('fld', ('fld', Sym('response'), 'ke2_message'), 'server_e_pk'), '0')
             csk = [args[1] for _, args in a['dh'] if contains(args[1], a['rp'])]
             # name-free: roles by provenance
             dhs = [args for _, args in a['dh']]
@@ -253,7 +253,7 @@ def run(ctx):
             row('R09.5', 'login: client private key = DeriveDiffieHellmanKeyPair(Expand(randomized_pwd, envelope nonce || "PrivateKey", Nsk))', norm_keys(csk[0]) if csk else None, want_csk, w, sn)
             pad = find_apps(dec, 'xor')
             if pad:
-                want_pad = rfc.credential_response_pad(rfc.expand(a['rp'], Bytes(b'MaskingKey'), Nh), ('fld', Sym('response'), 'masking_nonce'), Npk, Nn, Nm)
+                want_pad = rfc.credential_response_pad(rfc.expand(a['rp'], Bytes(b'MaskingKey'), Nh), role_term(ctx, sn, s, 3, Sym('response'), 'nonces'), Npk, Nn, Nm)
                 row('R09.9', 'login: unmasking pad = Expand(Expand(randomized_pwd, "MaskingKey", Nh), masking_nonce || "CredentialResponsePad", Npk + Nn + Nm)', pad[0][2][0], want_pad, w, sn)
         # ---- client starts: wire images
         for which, tp in (('creg_start', 'RegistrationRequest'), ('clog_start', 'CredentialRequest')):
